@@ -69,6 +69,14 @@ def next_action(view: GameState, k: int):
 
 def main():
     spec = json.loads(sys.argv[1])
+    # "runs": n > 1 - the same session n times, one coordinator after the other in THIS interpreter; the transcript of the
+    # last one is printed (a coordinator that is not the first of its process is a run of the coordinator like any other)
+    for _ in range(int(spec.get("runs", 1))):
+        transcript = session(spec)
+    print(json.dumps(transcript, sort_keys=True))
+
+
+def session(spec):
     cfg = default_config(env={"scenario": spec["scenario"], "use_dynamic_addresses": spec["dynamic"], "use_global_defender": spec["defender"],
                               "required_players": spec["players"], "use_firewall": True})
     cfg["coordinator"]["agents"]["Attacker"]["max_steps"] = spec["steps"]
@@ -120,7 +128,7 @@ def main():
             drain()
     finally:
         sim.close()
-    print(json.dumps(transcript, sort_keys=True))
+    return transcript
 
 
 if __name__ == "__main__":
